@@ -332,7 +332,7 @@ int main(void)
 
 #if defined(PROP_C10) || defined(PROP_C13)
 	PROP(same_cfg(&before, b), "C10/C13: generate leaves key, alg, flags, offsets and callback of the builder unchanged");
-	PROP(vj_equal(hcopy, b->c.headers) && vj_equal(pcopy, b->c.payload),
+	PROP(vj_equal_copy(hcopy, b->c.headers) && vj_equal_copy(pcopy, b->c.payload),
 	     "C10/C13: generate (and its callback) leave the builder's headers and claims unchanged");
 #endif
 
